@@ -16,8 +16,11 @@ def run(ctx):
         yield "rand", arr
         yield "byte", streams.recut([(">", ex["q"]), ("<", ex["s"])], "byte")
     rs, meta = wirecheck.build_rows(ctx, scns, schedules, lambda sc: [wirecheck.PERS_SAMPLE[sc["i"] % 2 * 1], wirecheck.PERS_SAMPLE[2 + (sc["i"] // 2) % (len(wirecheck.PERS_SAMPLE) - 2)]][: (1 if q else 2)])
+    import drift
+    drift.with_steps(rs, every=max(1, -(-len(rs) // (300 if q else 3000))))
     exe = vlib.build(ctx, "san", ["rec"])["rec"]
     files = streams.run_rec(ctx, exe, rs, "c02")
+    acc = drift.check(ctx, files)
     rows = wirecheck.rows_from_traces(ctx, files, rs, meta)
     total, distinct, bad = wirecheck.judge(ctx, rows, ["Fidelity"])
     wirecheck.attach_sites(ctx, bad, files)
@@ -86,6 +89,7 @@ def run(ctx):
     if fd - ld - sd - hd < 5 ** cl:
         vac = "request-field rows: %d distinct < %d declared" % (fd, 5 ** cl)
     vlib.finish(ctx, "model_checking", {
+        "model_acceptance": acc,
         "states": gen.distinct, "transitions": max(gen.generated, 1), "traces_validated_against_impl": total,
         "evaluations": total + ft, "distinct_nontrivial": distinct + fd, "request_field_rows": ft,
         "request_lines": "every sequence of <= %d atoms from {GET X /a HTTP/1.1 HTTP/1.0 HTTP/0.9 HTTP/2.0 SP TAB SPSP CR FF '?b c' http://h/p NUL} as a request line under allow_space_uri x Apache (NUL-terminated) / generic x leading whitespace kept or not; "
